@@ -287,7 +287,26 @@ impl<'u> Tr<'u> {
                 };
                 let init = match &l.init {
                     Some(i) if i.diverge.is_none() => &*i.expr,
-                    Some(_) => return self.err(sp, "let-else"),
+                    Some(i) => {
+                        // `let PAT = e else { <diverges> };`: a match whose other arm is the else block (which leaves
+                        // the function / the loop turn: it never falls through)
+                        let (_, els) = i.diverge.as_ref().unwrap();
+                        let els_stmts: &[Stmt] = match &**els {
+                            Expr::Block(b) if b.label.is_none() => &b.block.stmts,
+                            _ => return self.err(sp, "let-else whose else part is not a block"),
+                        };
+                        let has_exit = contains_return_block(&Block { brace_token: Default::default(), stmts: els_stmts.to_vec() })
+                            || (env.loop_body && els_stmts.iter().any(|s| matches!(s, Stmt::Expr(e, _) if contains_continue_expr(e))));
+                        if !has_exit {
+                            return self.err(sp, "let-else whose else block does not end in `return` (or `continue` of a translated loop body)");
+                        }
+                        let (g, t) = self.expr(&i.expr, env, None)?;
+                        let mut env2 = env.clone();
+                        let pb = self.pattern(pat, &t, &mut env2)?;
+                        let (body, bt) = self.block(rest, &env2, k)?;
+                        let (eb, et) = self.block(els_stmts, env, k)?;
+                        return Ok((G::Match(Box::new(g), vec![(pb, body), ("_".into(), eb)]), pick_ty(bt, et)));
+                    }
                     None => return self.err(sp, "`let` without a value"),
                 };
                 let hint = match annot {
